@@ -12,7 +12,12 @@ LEVEL = "other"
 THEOREMS = ["Mistune.iterRender_shape",
             # code blocks: whatever the code is, the fence the Markdown renderer writes cannot be closed by a line of the code, and parsing what it wrote gives the code back
             "Mistune.marker_shape", "Mistune.marker_not_closable", "Mistune.closesFence_eq", "Mistune.written_eq_recorded", "Mistune.written_fence_ok",
-            "Mistune.fence_roundtrip", "Mistune.md_block_code_roundtrip", "Mistune.md_block_code_roundtrip_any"]
+            "Mistune.fence_roundtrip", "Mistune.md_block_code_roundtrip", "Mistune.md_block_code_roundtrip_any",
+            # headings and thematic breaks: the rule regexes evaluated exactly, composed with the handlers, and the round trip through MarkdownRenderer.heading / thematic_break
+            "Mistune.atxRule_lookup", "Mistune.thematicRule_lookup", "Mistune.atxRule_matchAt_hit", "Mistune.atxRule_matchAt_iff", "Mistune.atx_line_token",
+            "Mistune.thematicRule_matchAt_hit", "Mistune.thematicRule_matchAt_iff", "Mistune.atxSpec_blank_fixed_iff", "Mistune.md_heading_roundtrip", "Mistune.md_thematic_break_roundtrip",
+            # one iteration of BlockParser.parse on a written heading / thematic break, and whole documents made of them
+            "Mistune.md_heading_step", "Mistune.md_thematic_break_step", "Mistune.blank_line_step", "Mistune.leafDoc_blockParse"]
 
 
 def strip_ref(tokens):
@@ -131,6 +136,77 @@ def code_tie(ctx, n):
     return len(reqs)
 
 
+def heading_tie(ctx, n):
+    """MarkdownRenderer.heading / thematic_break against their Lean transcriptions (Mistune/MdBlocks.lean: mdHeading, mdThematicBreak) on generated (level, text) pairs; and the
+    statement of md_heading_roundtrip evaluated on the implementation: for a text within its hypotheses (one line, non-empty, text.strip() == text, no closing sequence the
+    handler would remove) what heading() writes parses back to a heading of that level whose text is exactly the text"""
+    import re
+    import mistune
+    from mistune.renderers import markdown as mdr
+    from mistune.core import BlockState
+    r = mdr.MarkdownRenderer()
+    block = mistune.BlockParser()
+    d = common.Driver()
+    reqs, exp = [], []
+    indom = lost = 0
+    pieces = ["foo", "bar", "a b", "#", "##", " ", "  ", "\t", "\\", "*", "x#", "C#", "\u00a0", "\u3000", "é", "`", "-", "=", ">", "1."]
+    for i in range(n):
+        level = ctx.rng.randint(1, 8)
+        text = "".join(ctx.rng.choice(pieces) for _ in range(ctx.rng.randint(0, 5)))
+        tok = {"type": "heading", "attrs": {"level": level}, "children": [{"type": "text", "raw": text}]}
+        out = r.heading(tok, BlockState())
+        reqs.append(("md_heading", str(level), enc(text))); exp.append(((level, text), out))
+        # the theorem's hypotheses, and its conclusion on the implementation
+        b = text.rstrip("#")
+        ok = (b != "" and not (len(b) < len(text) and len(b.rstrip()) < len(b)))
+        if 1 <= level <= 6 and text and text.strip() == text and "\n" not in text:
+            st = BlockState(); st.process(out + "next\n")
+            block.parse(st)
+            first = st.tokens[0] if st.tokens else None
+            good = (first is not None and first["type"] == "heading" and first["attrs"]["level"] == level and first.get("text") == text)
+            indom += ok
+            lost += (not ok)
+            if ok and not good:
+                ctx.fail("heading-roundtrip", "MarkdownRenderer.heading(level=%d, text=%r) wrote %r, which parses to %r" % (level, text, out, first), {"doc": out, "level": level, "text": text})
+            if not ok and good:
+                ctx.broken.append("headingTextOk is not necessary on %r" % text)
+    # leafDoc_blockParse on the implementation: a document of in-domain headings and thematic breaks as the renderer writes them parses to exactly their tokens,
+    # each followed by one blank_line token
+    docs = 0
+    for i in range(max(20, n // 20)):
+        blocks, src, want = [], "", []
+        for _ in range(ctx.rng.randint(0, 6)):
+            if ctx.rng.random() < 0.3:
+                src += r.thematic_break({"type": "thematic_break"}, BlockState()); want += [{"type": "thematic_break"}, {"type": "blank_line"}]
+            else:
+                level = ctx.rng.randint(1, 6)
+                text = "".join(ctx.rng.choice(pieces) for _ in range(ctx.rng.randint(1, 5)))
+                b = text.rstrip("#")
+                if not (text and text.strip() == text and b != "" and not (len(b) < len(text) and len(b.rstrip()) < len(b))):
+                    continue
+                src += r.heading({"type": "heading", "attrs": {"level": level}, "children": [{"type": "text", "raw": text}]}, BlockState())
+                want += [{"type": "heading", "text": text, "attrs": {"level": level}, "style": "atx"}, {"type": "blank_line"}]
+        st = BlockState(); st.process(src)
+        block.parse(st)
+        docs += 1
+        if st.tokens != want:
+            ctx.fail("leafdoc", "the document %r of rendered headings / thematic breaks parses to %r, expected %r" % (src, st.tokens, want), {"doc": src})
+    ctx.cov["md_leaf_documents_checked"] = docs
+    reqs.append(("md_thematic_break",)); exp.append(("thematic_break", r.thematic_break({"type": "thematic_break"}, BlockState())))
+    outs = d.batch(reqs)
+    bad = 0
+    for (arg, want), got in zip(exp, outs):
+        if dec(got) != want:
+            bad += 1
+            if bad <= 3:
+                ctx.broken.append("markdown-renderer heading model: on %r the implementation gives %r, the Lean transcription %r" % (arg, want, dec(got)))
+    ctx.cov["md_heading_cases_compared"] = len(reqs)
+    ctx.cov["md_heading_disagreements"] = bad
+    ctx.cov["md_heading_roundtrip_checked"] = indom
+    ctx.cov["md_heading_closing_sequence_lost"] = lost
+    return len(reqs)
+
+
 def replay_known(ctx):
     import mistune
     from mistune.renderers.markdown import MarkdownRenderer
@@ -153,6 +229,7 @@ def run(ctx):
     n, srcs = oracle(ctx, 2000 if ctx.quick() else 30000, 3 if ctx.quick() else 4)
     common.model_tie(ctx, srcs, "core", "doc", limit=(600 if ctx.quick() else 6000))
     n += code_tie(ctx, 1500 if ctx.quick() else 20000)
+    n += heading_tie(ctx, 1500 if ctx.quick() else 20000)
     if ctx.broken and not ctx.failures:
         ctx.notes.append("search mode entered")
         n2, _ = oracle(ctx, 20000, 4)
